@@ -402,28 +402,6 @@ func (o *dexOracle) afterC06(w *World, ev *Event, res Result) *Violation {
 				w.Stats.Probe("c06.ranged_price_rounding_band")
 				continue
 			}
-			// reserves are whole units: the price is in range "up to one smallest unit" if moving one unit of either reserve
-			// towards the range brings it inside (a nearly depleted side makes one unit a visible step)
-			within := func(x, y sdk.Int) bool {
-				if x.IsNegative() || y.IsNegative() {
-					return false
-				}
-				ok := false
-				func() {
-					defer func() { _ = recover() }()
-					ap := pl.AMMPool(x, y, ps)
-					if ap.IsDepleted() {
-						return
-					}
-					q := ratDec(ap.Price())
-					ok = q.Cmp(loB) >= 0 && q.Cmp(hiB) <= 0
-				}()
-				return ok
-			}
-			if pr.Cmp(hi) > 0 && (within(rx, ry.AddRaw(1)) || within(rx.SubRaw(1), ry)) || pr.Cmp(lo) < 0 && (within(rx.AddRaw(1), ry) || within(rx, ry.SubRaw(1))) {
-				w.Stats.Probe("c06.ranged_price_within_one_reserve_unit")
-				continue
-			}
 			return &Violation{Property: "C06", OracleID: "c06.ranged_price_out_of_range", Signature: cmpSigInt(price.TruncateInt(), pl.MaxPrice.TruncateInt()) + ctxTag(ev),
 				Detail: fmt.Sprintf("ranged pool %d/%d: reserves (%s,%s) give price %s outside [%s, %s], after %s", app, pl.Id, rx, ry, price, pl.MinPrice, pl.MaxPrice, ev.Tag)}
 		}
